@@ -525,6 +525,8 @@ def main():
     bad += bad4
     import pygen_selftest_pxready              # leading `continue` guards, lambdas in declared calls, `l[0]`
     bad += pygen_selftest_pxready.run("--no-lean" not in sys.argv)
+    import pygen_pxloc_selftest                # `if`-tree search loops, two-generator comprehensions, opaque set operations
+    bad += pygen_pxloc_selftest.run("--no-lean" not in sys.argv)
     for what, src in REFUSED.items():
         try:
             tree = ast.parse(src)
